@@ -1,6 +1,6 @@
 (* C38: proofs about the SmallVector model (Model/SmallVecModel.v). *)
 From Coq Require Import ZArith List Bool Lia Arith.
-From DV Require Import Model.SmallVecLife Model.SmallVecModel.
+From DV Require Import Model.SmallVecLife Model.SmallVecModel Model.C38Check.
 Import ListNotations.
 Local Open Scope Z_scope.
 
@@ -1123,4 +1123,125 @@ Proof.
   - eapply Z.divide_trans; eassumption.
   - unfold inl_off. eapply Z.divide_trans; [exact Hm|]. apply Z.divide_factor_r.
   - apply Z.divide_mul_r. exact Hsz.
+Qed.
+
+(* ------------------------------------------------------------------ the theorems behind Props/Properties_C38.v *)
+Lemma reach_inv alloc N szT K ops sp' : (1 <= N)%nat ->
+  spec_run ops (spec_init K) = Some sp' -> selfref_growth alloc N szT ops (init_slots K) led0 = false ->
+  exists s g, run alloc N szT ops (init_slots K) led0 = Ok (s, g) /\ Inv alloc N s g sp'.
+Proof. intros HN Hsp Hself. eapply run_ok; [exact HN| |exact Hsp|exact Hself]. apply Inv_init; exact HN. Qed.
+
+Lemma C38_refines_proof : forall alloc N szT K ops sp', (1 <= N)%nat ->
+  spec_run ops (spec_init K) = Some sp' -> selfref_growth alloc N szT ops (init_slots K) led0 = false ->
+  exists s g, run alloc N szT ops (init_slots K) led0 = Ok (s, g) /\ Forall2 slot_matches s sp'.
+Proof.
+  intros alloc N szT K ops sp' HN Hsp Hself. destruct (reach_inv alloc N szT K ops sp' HN Hsp Hself) as (s & g & E & I).
+  exists s, g. split; [exact E|]. eapply Inv_matches; eauto.
+Qed.
+
+Lemma C38_lifetimes_proof : forall alloc N szT K ops sp', (1 <= N)%nat ->
+  spec_run ops (spec_init K) = Some sp' -> selfref_growth alloc N szT ops (init_slots K) led0 = false ->
+  exists s g, run alloc N szT ops (init_slots K) led0 = Ok (s, g) /\
+    nctor g - ndtor g = total sp' /\
+    (Forall (eq None) sp' ->
+       nctor g = ndtor g /\ Forall (fun b => b_live b = false) (blocks g) /\ Forall (eq None) s).
+Proof.
+  intros alloc N szT K ops sp' HN Hsp Hself. destruct (reach_inv alloc N szT K ops sp' HN Hsp Hself) as (s & g & E & I).
+  exists s, g. split; [exact E|]. split; [exact (inv_bal _ _ _ _ _ I)|]. intros Hn. eapply Inv_clean; eauto.
+Qed.
+
+Lemma C38_heap_aligned_proof : forall alloc al N szT K ops sp', (1 <= N)%nat ->
+  (forall c n, (16 | alloc c n)) -> (al | 16) -> (al | szT) ->
+  spec_run ops (spec_init K) = Some sp' -> selfref_growth alloc N szT ops (init_slots K) led0 = false ->
+  exists s g, run alloc N szT ops (init_slots K) led0 = Ok (s, g) /\
+    forall k v i, nth_error s k = Some (Some v) -> heapb v = true -> (al | elem_addr szT (data_addr al 0 g v) i).
+Proof.
+  intros alloc al N szT K ops sp' HN HA Hal Hsz Hsp Hself.
+  destruct (reach_inv alloc N szT K ops sp' HN Hsp Hself) as (s & g & E & I).
+  exists s, g. split; [exact E|]. eapply Inv_heap_aligned; eauto.
+Qed.
+
+(* witnesses of the two refutations *)
+Definition wit_alloc : nat -> Z -> Z := fun c _ => 16 + 4096 * Z.of_nat c.
+Definition wit_ops : list op := [OCtor 0; OPush 0 0 1; OPush 0 0 2].
+Definition wit_run := Eval vm_compute in (run wit_alloc 1 32 wit_ops (init_slots 1) led0).
+
+Lemma wit_alloc_16 : forall c n, (16 | wit_alloc c n).
+Proof. intros c n. exists (1 + 256 * Z.of_nat c). unfold wit_alloc. lia. Qed.
+
+Lemma C38_refuted_proof :
+  exists alloc al szT N ops s g v,
+    (forall c n, (16 | alloc c n)) /\ is_pow2 al /\ (al | szT) /\ (1 <= N)%nat /\
+    spec_run ops (spec_init 1) <> None /\ selfref_growth alloc N szT ops (init_slots 1) led0 = false /\
+    run alloc N szT ops (init_slots 1) led0 = Ok (s, g) /\
+    nth_error s 0 = Some (Some v) /\ heapb v = true /\ (0 < vsize v)%nat /\
+    ~ (al | elem_addr szT (data_addr al 0 g v) 0).
+Proof.
+  exists wit_alloc, 32, 32, 1%nat, wit_ops.
+  destruct wit_run as [[s g]|e] eqn:E; [|vm_compute in E; discriminate].
+  pose proof E as E0. vm_compute in E0. inversion E0; subst s g. clear E0.
+  eexists _, _, _.
+  split; [exact wit_alloc_16|]. split; [exists 5; split; [lia|reflexivity]|]. split; [apply Z.divide_refl|]. split; [lia|].
+  split; [vm_compute; discriminate|]. split; [vm_compute; reflexivity|]. split; [vm_compute; reflexivity|].
+  split; [vm_compute; reflexivity|]. split; [reflexivity|]. split; [cbn; lia|].
+  intros [z Hz]. match type of Hz with ?a = _ => let a' := eval vm_compute in a in change a with a' in Hz end. lia.
+Qed.
+
+Definition wit_self_ops : list op := [OCtor 0; OPush 0 0 11; OPush 0 0 22; OPushSelf 0 0].
+
+Lemma C38_refuted_selfref_proof :
+  exists alloc N szT ops sp',
+    (forall c n, (16 | alloc c n)) /\ (1 <= N)%nat /\ spec_run ops (spec_init 1) = Some sp' /\
+    selfref_growth alloc N szT ops (init_slots 1) led0 = true /\
+    run alloc N szT ops (init_slots 1) led0 = Err EReadDead.
+Proof.
+  exists wit_alloc, 2%nat, 8, wit_self_ops, [Some [11; 22; 11]].
+  split; [exact wit_alloc_16|]. split; [lia|]. repeat split; vm_compute; reflexivity.
+Qed.
+
+(* ------------------------------------------------------------------ the whole property for one history *)
+Definition C38_property (alloc : nat -> Z -> Z) (al szT : Z) (N K : nat) (ops : list op) : Prop :=
+  forall sp', spec_run ops (spec_init K) = Some sp' ->
+    exists s g, run alloc N szT ops (init_slots K) led0 = Ok (s, g) /\
+      Forall2 slot_matches s sp' /\
+      nctor g - ndtor g = total sp' /\
+      (Forall (eq None) sp' ->
+         nctor g = ndtor g /\ Forall (fun b => b_live b = false) (blocks g) /\ Forall (eq None) s) /\
+      (forall k v i obj, nth_error s k = Some (Some v) -> (obj_align al | obj) ->
+         (al | elem_addr szT (data_addr al obj g v) i)).
+
+Lemma pow2_le16_divides al : is_pow2 al -> overaligned al = false -> (al | 16).
+Proof.
+  intros (e & He & ->) Ho. unfold overaligned in Ho. apply Z.ltb_ge in Ho.
+  assert (e <= 4). { destruct (Z.le_gt_cases e 4); [assumption|]. exfalso.
+    assert (2 ^ 5 <= 2 ^ e) by (apply Z.pow_le_mono_r; lia). change (2 ^ 5) with 32 in *. lia. }
+  exists (2 ^ (4 - e)). rewrite <- Z.pow_add_r by lia. replace (4 - e + e) with 4 by lia. reflexivity.
+Qed.
+
+Lemma C38_holds_except_proof : forall alloc al szT N K ops,
+  (forall c n, (16 | alloc c n)) -> is_pow2 al -> (al | szT) -> (1 <= N)%nat ->
+  overaligned al = false -> selfref_growth alloc N szT ops (init_slots K) led0 = false ->
+  C38_property alloc al szT N K ops.
+Proof.
+  intros alloc al szT N K ops HA Hp Hsz HN Ho Hself sp' Hsp.
+  destruct (reach_inv alloc N szT K ops sp' HN Hsp Hself) as (s & g & E & I).
+  exists s, g. split; [exact E|]. split; [eapply Inv_matches; eauto|]. split; [exact (inv_bal _ _ _ _ _ I)|].
+  split; [intros Hn; eapply Inv_clean; eauto|].
+  intros k v i obj Hk Hobj. destruct (heapb v) eqn:Hh.
+  - replace (data_addr al obj g v) with (data_addr al 0 g v) by (unfold data_addr; rewrite Hh; reflexivity).
+    eapply Inv_heap_aligned with (A := 16) (sp := sp'); eauto using pow2_le16_divides.
+  - apply inline_aligned_proof; assumption.
+Qed.
+
+Lemma C38_full_refuted_proof :
+  ~ (forall alloc al szT N K ops, (forall c n, (16 | alloc c n)) -> is_pow2 al -> (al | szT) -> (1 <= N)%nat ->
+       C38_property alloc al szT N K ops).
+Proof.
+  intros H.
+  destruct (H wit_alloc 32 32 1%nat 1%nat wit_ops wit_alloc_16 ltac:(exists 5; split; [lia|reflexivity]) (Z.divide_refl 32) (le_n 1)
+              [Some [1; 2]] ltac:(vm_compute; reflexivity)) as (s & g & E & _ & _ & _ & HAl).
+  assert (E0 : run wit_alloc 1 32 wit_ops (init_slots 1) led0 = wit_run) by (vm_compute; reflexivity).
+  rewrite E0 in E. unfold wit_run in E. inversion E; subst s g. clear E E0.
+  destruct (HAl 0%nat _ 0%nat 0 eq_refl (Z.divide_0_r _)) as [z Hz].
+  match type of Hz with ?a = _ => let a' := eval vm_compute in a in change a with a' in Hz end. lia.
 Qed.
